@@ -138,6 +138,7 @@ class Images(productmd.common.MetadataBase):
         self.header = Header(self, "productmd.images")
         self.compose = Compose(self)
         self.images = {}
+        self.header.set_current_version()
 
     def __getitem__(self, variant):
         return self.images[variant]
